@@ -68,6 +68,9 @@ BINDERS = [
     ("import_plain_dotted", "import {N}.path"),  # binds the top-level package name
     ("nested_tuple", "_a, (_t, {N}) = 1, (2, 3)"),
     ("type_alias", "type {N} = int"),
+    # `global` two scopes deep: the name is bound at module level (= in the statement's scope at depth "module")
+    ("global_in_method", "class _G:\n    def m(self):\n        global {N}\n        {N} = 1\n_G().m()"),
+    ("global_in_nested_def", "def _o2():\n    def _i2():\n        global {N}\n        {N} = 1\n    _i2()\n_o2()"),
 ]
 # use statements: command-looking Python expressions over holes {A} and {B}
 USES = [
